@@ -245,6 +245,48 @@ def run(ctx):
                     elif o[0] != "ok" or any(w_.signal_count != inside or w_.sample_count != 0 or w_.data.shape != (0, inside) for w_ in o[1]):
                         ctx.violation(what="empty acquisition", how=how, width=width, mask=mask, big=big, observed=show(o)[:120] if o[0] != "ok" else f"{[w_.data.shape for w_ in o[1]]}",
                                       required=f"(0, {inside})")
+    # ---- one acquisition buffer used again and again (refilled in place between the calls, the usual way to read a device in a loop),
+    #      for from_port and from_ports, alternating masks and bit orders or not: every waveform shows the contents at the time of ITS call,
+    #      and waveforms made earlier keep theirs -------------------------------------------------------------------------------------------
+    for width, T in ((8, np.uint8), (16, np.uint16), (32, np.uint32)):
+        for schedule in ("same mask", "alternating masks", "alternating bit orders"):
+            buf = np.zeros(5, T)
+            buf2 = np.zeros((2, 4), T)
+            made = []
+            for round_ in range(4):
+                vals = [int(rng.getrandbits(width)) for _ in range(5)]
+                how = ("slice-assign", "item-assign", "in-place add", "copyto")[round_ % 4]
+                if how == "slice-assign": buf[:] = vals
+                elif how == "item-assign":
+                    for k_, v_ in enumerate(vals): buf[k_] = v_
+                elif how == "in-place add": buf[:] = 0; buf += np.array(vals, T)
+                else: np.copyto(buf, np.array(vals, T))
+                mask = (0x0F, 0xF0)[round_ % 2] if schedule == "alternating masks" else 0x3C
+                bo = ("big", "little")[round_ % 2] if schedule == "alternating bit orders" else "big"
+                o = outcome(lambda: W.from_port(buf, mask, bitorder=bo))
+                want = expected_rows(vals, width, mask, bo == "big")
+                ctx.case(("reused-buffer", width, schedule, round_))
+                if o[0] != "ok" or [[int(x) for x in r] for r in o[1].data] != want:
+                    ctx.violation(what="from_port on a refilled acquisition buffer", width=width, schedule=schedule, call=round_ + 1, refilled_by=how, values=vals,
+                                  observed=show(o)[:100] if o[0] != "ok" else str([[int(x) for x in r] for r in o[1].data])[:200], required=str(want)[:200])
+                    break
+                made.append((o[1], want))
+            for round_ in range(3):
+                mask = (0x0F, 0xF0)[round_ % 2] if schedule == "alternating masks" else 0x3C
+                bo = ("big", "little")[round_ % 2] if schedule == "alternating bit orders" else "big"
+                vals2 = [[int(rng.getrandbits(width)) for _ in range(4)] for _ in range(2)]
+                buf2[:] = vals2
+                o2 = outcome(lambda: W.from_ports(buf2, [mask, mask ^ 0xFF], bitorder=bo))
+                want2 = [expected_rows(vals2[0], width, mask, bo == "big"), expected_rows(vals2[1], width, mask ^ 0xFF, bo == "big")]
+                if o2[0] != "ok" or [[[int(x) for x in r] for r in w_.data] for w_ in o2[1]] != want2:
+                    ctx.violation(what="from_ports on a refilled acquisition buffer", width=width, schedule=schedule, call=round_ + 1, values=vals2,
+                                  observed=show(o2)[:100] if o2[0] != "ok" else str([[[int(x) for x in r] for r in w_.data] for w_ in o2[1]])[:200], required=str(want2)[:200])
+                    break
+            for w_, want in made:
+                if [[int(x) for x in r] for r in w_.data] != want:
+                    ctx.violation(what="a waveform made from an acquisition buffer changed when the buffer was refilled", width=width, schedule=schedule,
+                                  observed=str([[int(x) for x in r] for r in w_.data])[:200], required=str(want)[:200])
+                    break
     # ---- signals looked up by name and by position in any order give the same signals --------------------------------------------
     for case in range(40 if ctx.quick else 1000):
         width = rng.choice([8, 16])
